@@ -6,7 +6,8 @@ CLI_TRUST = (
     "the sandbox's /etc (with /etc/udev/rules.d and /etc/systemd/system created, optionally a pre-existing input group / totalmapper user / stale output files), /dev is a tmpfs "
     "in which /dev/uinput is a plain file (the code under test only stat()s, chowns and chmods it), /var/log and /var/mail are empty tmpfs; `systemctl` and `udevadm` are replaced "
     "by a logging stub that exits 0 (bind mount over the installed file, or a new file in an overlay over /usr/sbin when the program is not installed, as udevadm here). "
-    "getent, groupadd, id, adduser/useradd, usermod, chown, chmod are the real programs acting on the private /etc and /dev. A run that exits non-zero or leaves no file on an argv "
+    "getent, groupadd, id, adduser/useradd, usermod, chown, chmod are the real programs acting on the private /etc and /dev. Every run has a 10 s limit; a run that hits it is "
+    "repeated once, alone (the real user-management programs stalled once in about 3000 runs on the busy sandbox), and only the repetition is judged. A run that exits non-zero or leaves no file on an argv "
     "the command line accepts is reported as a violation, so a sandbox in which these programs fail would alarm. When `unshare -m true` fails the engine gives NO verdict "
     "(evidence key cli_namespace_run says 'skipped', zero cli evaluations) and the glue in src/main.rs is then covered by nothing."
 )
@@ -56,8 +57,15 @@ EXTEND = {
                  "the real binary is run as `list_keyboards`, `remap --default-layout caps-for-movement --all-keyboards --verbose --exclude P...` and `remap ... --only-if-keyboard --verbose "
                  "--exclude P... --dev-file D...`; the devices it prints as listed, '(excluded)', 'Skipping ...' and the 'Remapping N devices.' count must equal the extracted listing model's "
                  "selection for the same fabricated system, with WildMatch, the /sys walk and canonicalize answered by the recorded oracles, and the extracted spec_all / spec_dev_file / "
-                 "no_virtual_listed checkers must accept them (clause C16.cli_excludes)."),
+                 "no_virtual_listed checkers must accept them (clause C16.cli_excludes). On the same scenarios, in a second fabricated copy of the system in which every node named by /sys exists, "
+                 "the three ways of naming devices are run with the same patterns (spelled `--exclude P` or `--exclude=P`, a seeded builtin layout): --all-keyboards, "
+                 "--dev-file <every node> --only-if-keyboard, and --auto-all-keyboards (never returns: killed with SIGKILL once its first round is printed and stderr went quiet for 0.3 s, "
+                 "3 s at most). Required (clause C16.cli_modes_agree): --all-keyboards and the first round of --auto-all-keyboards print the same devices with the same '(excluded)' flags "
+                 "(or both fail to list); the --all-keyboards listing equals the one of the listing-ns run of the same command (which is the one compared with the model); and, when no /sys "
+                 "lookup of the scenario fails and every entry has its own sysfs path (the guards of C16_selection_same; 127 of 200 thorough scenarios), the nodes not reported as "
+                 "'Skipping ...' by --dev-file are exactly the non-excluded nodes of --all-keyboards."),
         "explanation": ("The cli engine adds the dispatch of `remap` in main.rs (the --exclude / --dev-file / --only-if-keyboard / --all-keyboards definitions and their forwarding to "
-                        "do_remapping_loop_all_devices / do_remapping_loop_multiple_devices) in the quick tier as well (clause C16.cli_excludes)."),
+                        "do_remapping_loop_all_devices / do_remapping_loop_multiple_devices / do_remapping_loop_auto_all_devices) in the quick tier as well (clause C16.cli_excludes), "
+                        "and the statement's 'the answer is the same whichever way devices are named' on the real binary for all three ways (clause C16.cli_modes_agree)."),
     },
 }
